@@ -170,6 +170,24 @@ def r1_columns(ctx, rep):
        f"the comment test reads columns {sorted(cols)} of the card", an)
     cols = cards.columns(role(an, "label"))
     ob("label field is columns 1-5", cols == {(1, 5)}, "label = columns 1-5", f"the label is taken from columns {sorted(cols)}", an)
+    cols = cards.columns(role(an, "isNewComment"))
+    ob("a `!` comment is looked for in the label field only", bool(cols) and all(1 <= a and b <= 5 for a, b in cols),
+       f"the `!` test reads columns {sorted(cols)}",
+       f"the `!`-comment test reads columns {sorted(cols)}: column 6 is the continuation column, any character there other than "
+       f"blank and 0 - also `!` - marks a continuation line, it does not start a comment", an)
+    # the continuation mark has to go between the statement and a trailing comment: whatever does that has to look for `!`
+    cli = cl
+    rx = {name.split(".")[-1]: pat for name, (pat, *_rest) in py.regex_constants().items()}
+    looks = False
+    for x in ast.walk(cli):
+        if isinstance(x, ast.Constant) and isinstance(x.value, str) and "!" in x.value and x.value.strip() != "":
+            looks = True
+        if isinstance(x, (ast.Name, ast.Attribute)) and "!" in str(rx.get(ast.unparse(x).split(".")[-1], "")):
+            looks = True
+    ob("the continuation mark is put before a trailing comment", looks,
+       "continueLine separates a trailing `!` comment from the statement",
+       "continueLine appends ` &` to whatever the line ends with: on `      subroutine foo(a, !! first` the mark lands inside the "
+       "comment, the statement is not continued and `b)` on the next card becomes a statement of its own", cl)
     exprs = role(an, "isContinuation")
     cols = cards.columns(exprs)
     ob("continuation column is column 6", cols == {(6, 6)}, "the continuation test reads column 6",
